@@ -65,7 +65,17 @@ func (ds *DataSchema) record(r *rand.Rand, o DataOpts, depth int) *refavro.Schem
 		n = 0
 	}
 	for i := 0; i < n; i++ {
-		s.Fields = append(s.Fields, refavro.Field{Name: fmt.Sprintf("f%d", i), Type: ds.gen(r, o, depth+1, false)})
+		name := fmt.Sprintf("f%d", i)
+		if i > 0 && r.IntN(8) == 0 {
+			// a sibling whose name differs from an earlier one only in case
+			name = fmt.Sprintf("F%d", r.IntN(i))
+			for _, f := range s.Fields {
+				if f.Name == name {
+					name = fmt.Sprintf("f%d", i)
+				}
+			}
+		}
+		s.Fields = append(s.Fields, refavro.Field{Name: name, Type: ds.gen(r, o, depth+1, false)})
 	}
 	return s
 }
@@ -134,6 +144,17 @@ func (ds *DataSchema) gen(r *rand.Rand, o DataOpts, depth int, inUnion bool) *re
 			if o.CallerMode || o.NoMulti {
 				u.Branches = []*refavro.Schema{null, inner}
 				break
+			}
+			if r.IntN(6) == 0 {
+				// a wide union: 66..130 distinct named fixed types of one size (selectors need two bytes)
+				nb := 66 + r.IntN(65)
+				size := pick(r, []int{1, 4, 16})
+				u.Branches = nil
+				for k := 0; k < nb; k++ {
+					ds.names++
+					u.Branches = append(u.Branches, &refavro.Schema{Type: "fixed", ObjectForm: true, Name: fmt.Sprintf("W%d", ds.names), Size: size})
+				}
+				return u
 			}
 			// multi-branch, type compatible: null + int + long (all fit an integer target)
 			a := &refavro.Schema{Type: "int"}
@@ -273,6 +294,9 @@ func (ds *DataSchema) GenDatum(r *rand.Rand, s *refavro.Schema, o DatumOpts, out
 		return m
 	case "union":
 		b := r.IntN(len(s.Branches))
+		if len(s.Branches) > 64 && r.IntN(2) == 0 {
+			b = 64 + r.IntN(len(s.Branches)-64)
+		}
 		return &refavro.Union{Branch: b, Val: ds.GenDatum(r, s.Branches[b], o, outOfRange)}
 	}
 	panic("GenDatum: " + s.Type)
